@@ -5,7 +5,18 @@ namespace Pelite.Driver
 open Pelite.Proto Pelite.Pe
 
 def tySize (t : String) : Nat :=
-  match t with | "u8" => 1 | "u16" => 2 | "u32" => 4 | "u64" => 8 | _ => 0
+  match t with
+  | "u8" => 1 | "u16" => 2 | "u32" => 4 | "u64" => 8
+  | "dd" => 8 | "sh" => 40 | "b16" => 16          -- IMAGE_DATA_DIRECTORY, IMAGE_SECTION_HEADER, [u8; 16]
+  | _ => 0
+
+/-- `align_of::<T>()`: differs from the size for the struct element types -/
+def tyAlign (t : String) : Nat :=
+  match t with
+  | "dd" => 4 | "sh" => 4 | "b16" => 1
+  | t => tySize t
+
+def isStructTy (t : String) : Bool := t == "dd" || t == "sh" || t == "b16"
 
 def bytesOut (o : Out (List UInt8)) : String := outStr (fun l => hex l.toArray) o
 
@@ -17,12 +28,12 @@ def typedOp (img : Option Img) (fam : String) (a : List String) : Option String 
   let mk (x : String) : Addr := if isVa then .va (num x) else .rva (num x)
   match base, a with
   | "", [k, t, x] => some (withView img k fun v =>
-      match v.derva (mk x) (tySize t) (tySize t) with
-      | .ok r => s!"ok {ref r} val={leN v.b r.off (tySize t)}"
+      match v.derva (mk x) (tySize t) (tyAlign t) with
+      | .ok r => if isStructTy t then s!"ok {ref r}" else s!"ok {ref r} val={leN v.b r.off (tySize t)}"
       | o => refOut o)
   | "_copy", [k, t, x] => some (withView img k fun v => natOut (v.dervaCopy (mk x) (tySize t)))
   | "_into", [k, len, x] => some (withView img k fun v => bytesOut (v.dervaInto (mk x) (num len)))
-  | "_slice", [k, t, x, len] => some (withView img k fun v => refOut (v.dervaSlice (mk x) (tySize t) (tySize t) (num len)))
+  | "_slice", [k, t, x, len] => some (withView img k fun v => refOut (v.dervaSlice (mk x) (tySize t) (tyAlign t) (num len)))
   | "_slice_s", [k, t, x, s] => some (withView img k fun v => refOut (v.dervaSliceS (mk x) (tySize t) (tySize t) (num s)))
   | "_cstr", [k, x] => some (withView img k fun v => refOut (v.dervaCStr (mk x)))
   | _, _ => none
